@@ -7,7 +7,9 @@ namespace PhreeqcVerif.Raw
 variable {F V : Type} [DecidableEq F]
 
 /-- behavioural assumptions on values: printing-then-parsing is idempotent, does not change what the writer's
-conditions see, and reproduces the values of a fresh object exactly -/
+conditions see, and reproduces the values of a fresh object exactly. For the real code this is the IEEE-754
+round-trip guarantee at the 17 significant digits `dump_raw` prints (`norm` is then the identity on doubles, names
+and flags), and, for a nested block, `cycle_idem` of the sub-class. -/
 structure Sys.ValOk (S : Sys F V) : Prop where
   norm_idem : ∀ f v, S.norm f (S.norm f v) = S.norm f v
   test_norm : ∀ f v, S.test f (S.norm f v) = S.test f v
